@@ -46,7 +46,7 @@ func init() {
 		ID: "C12", Level: "exploration",
 		Rule: "checkpoints of the all-modules director (every ~25 blocks and at the end) are exported with the application's own export; each export G is (1) imported as a whole into a fresh application with the repository's wiring and default options at the exported height, (2) imported once per irismod module with only that module's section (plus the sections it depends on) as exported, (3) exported again after the modules' PrepForZeroHeightGenesis steps and imported at height 1. Each import must be accepted; export(import(G)) must equal G on every irismod section (canonical JSON); and every query of a fixed list about durable objects must answer byte-identically on both applications at the same height and time; then a battery of ordinary messages derived from the exported state (mt/nft/token/coinswap/farm) is carried out on a dropped branch of each state, message by message, and every outcome and every query afterwards must agree; then a battery of ordinary messages derived from the exported state (mt/nft/token/coinswap/farm) is carried out on a dropped branch of each state, message by message, and every outcome and every query afterwards must agree. non-trivial = an import/fixpoint/query comparison actually evaluated on a state with objects of that module; distinct = distinct (mode, module, relation, object kinds present)",
 		Assume: []string{"dropped by the modules' own export code and therefore not compared: closed HTLCs, service requests/responses/earned fees, random results", "queries run on contexts with identical height and time (pending farm rewards depend on it)", "isolated imports skip crisis' genesis invariants because the defaulted modules' escrow balances no longer match by construction; the full import does not"},
-		Cases:  func(t string) int { return tierN(t, 4, 32) },
+		Cases:  func(t string) int { return tierN(t, 8, 32) },
 		Run:    runExportImport,
 		RequireTotals: aliveTotals(map[string]int64{"probes-ok-on-source:mt": 1, "probes-ok-on-source:nft": 1, "probes-ok-on-source:token": 1, "probes-ok-on-source:coinswap": 1, "probes-ok-on-source:farm": 1, "checkpoints-with-ten-or-more-coinswap-pools": 1, "checkpoints-with-the-erc20-bridge-off-and-no-beacon": 1}),
 	})
